@@ -171,11 +171,6 @@ inductive WRes | ok (n : Nat) | errCL | errParse | errConn | errCopy (n : Nat) |
 
 def chunkHdr (l : Nat) : Bytes := fmtHex l ++ CRLF
 
-/-- writeChunk, branch `totalSize < maxPacketSize`: everything is appended to the cache buffer -/
-def chunkSmall (r : R) (pbuf : Option Bytes) (data : Bytes) : R × WRes :=
-  let base := match pbuf with | some b => b | none => []
-  ({ r with buffer := some (base ++ chunkHdr data.length ++ data ++ CRLF) }, .ok data.length)
-
 /-- writeChunk, step 3: append data and tail; keep if still small, else send and free -/
 def chunkTail (g : Cfg) (r : R) (nb : Bytes) (data : Bytes) : R × WRes :=
   let nb := nb ++ data ++ CRLF
@@ -184,19 +179,21 @@ def chunkTail (g : Cfg) (r : R) (nb : Bytes) (data : Bytes) : R × WRes :=
     let (r, ok) := send g r nb
     if ok then (r, .ok data.length) else (r, .errConn)
 
-/-- Response.writeChunk -/
+/-- Response.writeChunk (`totalSize` = length string + data + 4 + pending head buffer) -/
 def writeChunk (g : Cfg) (r : R) (data : Bytes) : R × WRes :=
   let r := eoncodeHead g r
-  let pbuf := r.buffer
-  let r := { r with buffer := none }
-  let total := (fmtHex data.length).length + data.length + 4 + (match pbuf with | some b => b.length | none => 0)
-  if total < maxPacket then chunkSmall r pbuf data
-  else
-    match pbuf with
-    | some b =>
+  match r.buffer with
+  | some b =>
+    let r := { r with buffer := none }
+    if (fmtHex data.length).length + data.length + 4 + b.length < maxPacket then
+      ({ r with buffer := some (b ++ chunkHdr data.length ++ data ++ CRLF) }, .ok data.length)
+    else
       let (r, ok) := send g r (b ++ chunkHdr data.length)
       if ok then chunkTail g r [] data else (r, .errConn)
-    | none => chunkTail g r (chunkHdr data.length) data
+  | none =>
+    if (fmtHex data.length).length + data.length + 4 < maxPacket then
+      ({ r with buffer := some (chunkHdr data.length ++ data ++ CRLF) }, .ok data.length)
+    else chunkTail g r (chunkHdr data.length) data
 
 /-- Response.contentLength: `none` = strconv error -/
 def contentLength (r : R) : R × Option Nat :=
@@ -212,11 +209,10 @@ def contentLength (r : R) : R × Option Nat :=
 def takeHead (g : Cfg) (r : R) (l cl : Nat) : R × Bool :=
   if cl > 0 then
     let r := eoncodeHead g r
-    let pbuf := r.buffer
-    let r := { r with buffer := none }
-    match pbuf with
+    match r.buffer with
     | none => (r, true)
     | some b =>
+      let r := { r with buffer := none }
       if b.length + l < maxPacket then ({ r with bodyBuffer := some b }, true)
       else send g r b
   else (r, true)
@@ -235,6 +231,13 @@ def sendDirect (g : Cfg) (r : R) (data : Bytes) : R × WRes :=
   let (r, ok) := send g r data
   if ok then (r, .ok data.length) else (r, .errConn)
 
+/-- Write: "send the cached buffer first" (`bodyBuffer = some bb0`) -/
+def sendCached (g : Cfg) (r : R) (bb0 : Bytes) : R × Bool :=
+  if bb0.length > 0 then
+    let (r, ok) := send g r bb0
+    if ok then ({ r with bodyBuffer := some [] }, true) else ({ r with bodyBuffer := none }, false)
+  else (r, true)
+
 /-- Write, label APPEND_BODY -/
 def appendBody (g : Cfg) (r : R) (data : Bytes) (cl : Nat) : R × WRes :=
   let l := data.length
@@ -244,30 +247,32 @@ def appendBody (g : Cfg) (r : R) (data : Bytes) (cl : Nat) : R × WRes :=
     else appendTail g r [] data cl
   | some bb0 =>
     if cl > 0 && bb0.length + l > maxPacket then
-      let (r, ok) : R × Bool :=
-        if bb0.length > 0 then
-          let (r, ok) := send g r bb0
-          if ok then ({ r with bodyBuffer := some [] }, true) else ({ r with bodyBuffer := none }, false)
-        else (r, true)
-      if !ok then (r, .errConn)
-      else if l ≥ maxPacket then
-        sendDirect g { r with bodyWritten := r.bodyWritten + l, bodyBuffer := none } data
-      else appendTail g r [] data cl
+      match sendCached g r bb0 with
+      | (r, false) => (r, .errConn)
+      | (r, true) =>
+        if l ≥ maxPacket then
+          sendDirect g { r with bodyWritten := r.bodyWritten + l, bodyBuffer := none } data
+        else appendTail g r [] data cl
     else appendTail g r bb0 data cl
+
+/-- Write, identity framing, after contentLength() answered `cl` -/
+def writeIdent (g : Cfg) (r : R) (data : Bytes) (cl : Nat) : R × WRes :=
+  if cl > 0 && r.bodyWritten + data.length > cl then (r, .errCL) else
+  match takeHead g r data.length cl with
+  | (r, false) => (r, .errConn)
+  | (r, true) => appendBody g r data cl
+
+/-- Write after `WriteHeader(200); checkChunked(); hasBody = true` -/
+def writeBody (g : Cfg) (r : R) (data : Bytes) : R × WRes :=
+  if r.chunked then writeChunk g r data else
+  match contentLength r with
+  | (r, none) => (r, .errParse)
+  | (r, some cl) => writeIdent g r data cl
 
 /-- Response.Write (WriteString is the same function) -/
 def write (g : Cfg) (r : R) (data : Bytes) : R × WRes :=
   if data.length == 0 then (r, .ok 0) else
-  let r := checkChunked g (writeHeader200 r)
-  let r := { r with hasBody := true }
-  if r.chunked then writeChunk g r data else
-  match contentLength r with
-  | (r, none) => (r, .errParse)
-  | (r, some cl) =>
-    if cl > 0 && r.bodyWritten + data.length > cl then (r, .errCL) else
-    match takeHead g r data.length cl with
-    | (r, false) => (r, .errConn)
-    | (r, true) => appendBody g r data cl
+  writeBody g { checkChunked g (writeHeader200 r) with hasBody := true } data
 
 /-! ### ReadFrom -/
 
@@ -301,46 +306,60 @@ def readFrom (g : Cfg) (r : R) (k : RKind) (data : Bytes) : R × WRes :=
 
 /-! ### Flush (http.Flusher) -/
 
-def flushOp (g : Cfg) (r : R) : R :=
-  let r := eoncodeHead g (checkChunked g (writeHeader200 r))
-  let r := match r.buffer with
-    | some b =>
-      if b.length > 0 then
-        let (r, ok) := send g r b
-        if ok then { r with buffer := some [] } else { r with buffer := none }
-      else r
-    | none => r
+/-- Flush, first paragraph: the head buffer -/
+def flushBuf (g : Cfg) (r : R) : R :=
+  match r.buffer with
+  | some b =>
+    if b.length > 0 then
+      let (r, ok) := send g r b
+      if ok then { r with buffer := some [] } else { r with buffer := none }
+    else r
+  | none => r
+
+/-- Flush, second paragraph: the body buffer -/
+def flushBodyBuf (g : Cfg) (r : R) : R :=
   match r.bodyBuffer with
-    | some b =>
-      if b.length > 0 then
-        let (r, ok) := send g r b
-        if ok then { r with bodyBuffer := some [] } else { r with bodyBuffer := none }
-      else r
-    | none => r
+  | some b =>
+    if b.length > 0 then
+      let (r, ok) := send g r b
+      if ok then { r with bodyBuffer := some [] } else { r with bodyBuffer := none }
+    else r
+  | none => r
+
+def flushOp (g : Cfg) (r : R) : R :=
+  flushBodyBuf g (flushBuf g (eoncodeHead g (checkChunked g (writeHeader200 r))))
 
 /-! ### flushResponse -/
 
-/-- Response.flush, identity branch; `false` = error -/
-def flushIdentity (g : Cfg) (r : R) : R × Bool :=
-  let (r, ok) : R × Bool :=
-    match r.buffer with
-    | some hb =>
-      let (r, hb, ok) : R × Bytes × Bool :=
-        match r.bodyBuffer with
-        | some bb =>
-          if bb.length > 0 then
-            if hb.length + bb.length > maxPacket then
-              let (r, ok) := send g r hb
-              if ok then ({ r with buffer := some bb, bodyBuffer := none }, bb, true)
-              else ({ r with buffer := none, bodyBuffer := none }, [], false)
-            else ({ r with buffer := some (hb ++ bb), bodyBuffer := none }, hb ++ bb, true)
-          else (r, hb, true)
-        | none => (r, hb, true)
-      if !ok then (r, false) else
-      let (r, ok) := send g r hb
-      ({ r with buffer := none }, ok)
-    | none => (r, true)
-  if !ok then (r, false) else
+/-- flush, identity: head and body buffer both pending (`buffer = some hb`): send the head alone and let
+the body buffer take its place, or append the body to the head -/
+def mergeBody (g : Cfg) (r : R) (hb : Bytes) : R × Bool :=
+  match r.bodyBuffer with
+  | some bb =>
+    if bb.length > 0 then
+      if hb.length + bb.length > maxPacket then
+        let (r, ok) := send g r hb
+        if ok then ({ r with buffer := some bb, bodyBuffer := none }, true)
+        else ({ r with buffer := none, bodyBuffer := none }, false)
+      else ({ r with buffer := some (hb ++ bb), bodyBuffer := none }, true)
+    else (r, true)
+  | none => (r, true)
+
+def mergeStep (g : Cfg) (r : R) : R × Bool :=
+  match r.buffer with
+  | some hb => mergeBody g r hb
+  | none => (r, true)
+
+/-- conn.Write(*res.buffer); Free; nil -/
+def sendFreeBuffer (g : Cfg) (r : R) : R × Bool :=
+  match r.buffer with
+  | some b =>
+    let (r, ok) := send g r b
+    ({ r with buffer := none }, ok)
+  | none => (r, true)
+
+/-- the same for a non-empty body buffer -/
+def sendFreeBody (g : Cfg) (r : R) : R × Bool :=
   match r.bodyBuffer with
   | some bb =>
     if bb.length > 0 then
@@ -348,6 +367,13 @@ def flushIdentity (g : Cfg) (r : R) : R × Bool :=
       ({ r with bodyBuffer := none }, ok)
     else (r, true)
   | none => (r, true)
+
+/-- Response.flush, identity branch; `false` = error -/
+def flushIdentity (g : Cfg) (r : R) : R × Bool :=
+  let p := mergeStep g r
+  if !p.2 then (p.1, false) else
+  let q := sendFreeBuffer g p.1
+  if !q.2 then (q.1, false) else sendFreeBody g q.1
 
 /-- the trailer block of the last chunk: value = current header value if there is one, else the captured one -/
 def trailerLines (r : R) : Bytes :=
